@@ -23,7 +23,7 @@ TRANSPARENT_NAMES = {
     'downgrade', 'try_into', 'try_from', 'trim', 'trim_start', 'trim_end', 'to_lowercase', 'to_uppercase', 'rev',
     'chars', 'bytes', 'peekable', 'enumerate', 'skip', 'take', 'get', 'first', 'last', 'first_mut', 'last_mut',
     'index', 'index_mut', 'unwrap_or', 'ok_or', 'ok_or_else', 'map_err', 'downcast_ref', 'downcast', 'new_display',
-    'new_debug', 'unsize', 'must_use', 'ok_or_else',
+    'new_debug', 'unsize', 'must_use', 'next', 'next_back', 'peek',
 }
 TRANSPARENT_TYPES = ('Option', 'Result', 'Rc', 'Weak', 'RefCell', 'Ref', 'RefMut', 'Vec', 'String', 'str', 'Box',
                      'Cell', 'OnceCell', '[T]', 'Cow', 'Iter', 'IterMut', 'Arc', 'hint', 'Argument', 'ControlFlow')
@@ -51,13 +51,23 @@ class DefUse:
             if s['k'] != 'assign':
                 continue
             pl = s['pl']
-            self.defs.setdefault(pl['l'], []).append(
-                {'kind': 'assign' if 'p' not in pl else 'partial', 'bb': bb, 'si': si, 'rv': s['rv'], 'pl': pl})
+            if 'p' not in pl:
+                kind = 'assign'
+            elif any(pe['k'] == 'deref' for pe in pl['p']):
+                kind = 'store'      # write through a reference: does not change what the local *is*
+            else:
+                kind = 'partial'    # field of a local aggregate
+            self.defs.setdefault(pl['l'], []).append({'kind': kind, 'bb': bb, 'si': si, 'rv': s['rv'], 'pl': pl})
         for bb, t in fn.terms():
             if t['k'] == 'call':
                 pl = t['dest']
-                self.defs.setdefault(pl['l'], []).append(
-                    {'kind': 'call' if 'p' not in pl else 'partial_call', 'bb': bb, 'term': t, 'pl': pl})
+                if 'p' not in pl:
+                    kind = 'call'
+                elif any(pe['k'] == 'deref' for pe in pl['p']):
+                    kind = 'store_call'
+                else:
+                    kind = 'partial_call'
+                self.defs.setdefault(pl['l'], []).append({'kind': kind, 'bb': bb, 'term': t, 'pl': pl})
 
     def single_def(self, l):
         ds = [d for d in self.defs.get(l, []) if d['kind'] in ('assign', 'call')]
@@ -164,9 +174,9 @@ class Tracer:
                     out.add('upvar:%s' % pe.get('n', pe['i']))
             elif pe['k'] == 'index':
                 out.add('indexed')
-        self._local(fn, pl['l'], seen, out)
+        self._local(fn, pl['l'], seen, out, access=_access(pl))
 
-    def _local(self, fn, l, seen, out):
+    def _local(self, fn, l, seen, out, access=None):
         if l in seen:
             return
         seen.add(l)
@@ -177,9 +187,12 @@ class Tracer:
             else:
                 out.add('arg:%d' % l)
         for df in d.defs.get(l, []):
+            if df['kind'] in ('partial', 'partial_call') and access is not None \
+                    and not _compatible(_access(df['pl']), access):
+                continue    # a different field of the local aggregate was written
             if df['kind'] in ('assign', 'partial'):
                 self._rvalue(fn, df['rv'], seen, out)
-            else:
+            elif df['kind'] in ('call', 'partial_call'):
                 self._call(fn, df['term'], seen, out)
 
     def _rvalue(self, fn, rv, seen, out):
@@ -232,6 +245,24 @@ class Tracer:
                     self._operand(fn, args[i - 1], seen, out)
             return
         out.add('call:' + cs)
+
+
+def _access(pl):
+    """Field-index path of a place up to the first deref/index (what part of the local is touched)."""
+    out = []
+    for pe in pl.get('p', []):
+        if pe['k'] == 'field':
+            out.append(pe['i'])
+        elif pe['k'] == 'downcast':
+            out.append('v%s' % pe.get('vi'))
+        else:
+            break
+    return tuple(out)
+
+
+def _compatible(a, b):
+    n = min(len(a), len(b))
+    return a[:n] == b[:n]
 
 
 def promoted_consts(body):
